@@ -214,7 +214,17 @@ func (t *Tracker) Free(pbuf *[]byte) {
 	t.Frees++
 	r := t.find(*pbuf)
 	if r == nil {
+		// An array the allocator never produced is handed to the pool. That is legal (a buffer may be
+		// donated), but from now on it belongs to the pool: adopt it as a freed buffer, so that a later
+		// use or a second Free by its former owner is seen like any other use after free.
 		t.Foreign++
+		full := (*pbuf)[:cap(*pbuf)]
+		ar := &trec{arr: full, lo: base(full), id: -t.Foreign, freed: true, freeBy: "Free (buffer not obtained from the allocator) at " + caller()}
+		ar.hi = ar.lo + uintptr(len(full))
+		t.recs = append(t.recs, ar)
+		for i := range full {
+			full[i] = poisonByte
+		}
 		return
 	}
 	if r.freed {
@@ -287,9 +297,17 @@ func (t *Tracker) FreedCount() int {
 // Reset drops all records (between cases).
 func (t *Tracker) Reset() {
 	t.mu.Lock()
-	t.recs = nil
+	// adopted foreign buffers (id < 0) stay in quarantine across cases: they are typically long-lived
+	// objects (globals), and a second Free of the same object in a later case is still a double free
+	var keep []*trec
+	for _, r := range t.recs {
+		if r.id < 0 {
+			keep = append(keep, r)
+		}
+	}
+	t.recs = keep
 	t.violations = nil
-	t.Mallocs, t.Frees, t.Foreign, t.PeakReq, t.LiveBytes, t.PeakLive = 0, 0, 0, 0, 0, 0
+	t.Mallocs, t.Frees, t.PeakReq, t.LiveBytes, t.PeakLive = 0, 0, 0, 0, 0
 	t.mu.Unlock()
 }
 
